@@ -78,7 +78,7 @@ fn main() {
             "body" => s_body::run(&a[3]),
             "memory" => s_memory::run(&a[3]),
             "epoll" => s_epoll::run(&a[3]),
-            "modes" => s_modes::run(&a[3]),
+            "modes" | "modes09" => s_modes::run(&a[3]),
             "pool" => s_pool::run(&a[3]),
             "printer" => s_printer::run(&a[3]),
             "conn" => s_conn::run(&a[3]),
@@ -110,6 +110,7 @@ fn main() {
         "memory" => s_memory::gen(&ctx),
         "epoll" => s_epoll::gen(&ctx),
         "modes" => s_modes::gen(&ctx),
+        "modes09" => s_modes::gen09(&ctx),
         "pool" => s_pool::gen(&ctx),
         "printer" => s_printer::gen(&ctx),
         "readloop" => s_conn::gen_readloop(&ctx),
